@@ -486,7 +486,8 @@ def harnesses(tier):
     if tier == "thorough":
         hs.append(Mul(1, 3, False, ("dr",)))
         hs.append(Mul(1, 3, True, ("dr", "rr")))
-        hs.append(Mul(2, 3, False, ("dr", "rd", "rr")))
+        hs.append(Mul(1, 2, False, ("dr", "rd", "rr")))
+        hs.append(Mul(2, 2, False, ("dr",)))
         hs.append(AddWeightsMismatch(2, 2))
     hs.append(Equality(1, 2))
     for cls in (SampledData, CorrData):
